@@ -28,7 +28,9 @@ pub fn make_case_mode(inp: &ExecInput, lazy: bool) -> Option<Case> {
     let tree_t = tree_term(&info);
     let (matches_t, nmatches) = stanza_matches_term(&file, &tree, &info);
     let matches_t = if lazy { file_matches_term(&file, &tree, &info) } else { matches_t };
-    let args = format!("({}) ({}) {} {}", tree_t, file_t, globals_term(&inp.supplied), matches_t);
+    let mut rx_terms = Vec::new();
+    for pat in &d.regexes { rx_terms.push(crate::c10::parse_regex(pat)?.coq()); }   // outside the modelled sub-language: skip
+    let args = format!("({}) ({}) {} {} {}", tree_t, file_t, coq_list(&rx_terms), globals_term(&inp.supplied), matches_t);
     let mut tags = vec![format!("outcome:{}", obs.class()), format!("stanzas:{}", file.stanzas.len()), format!("matches:{}", (nmatches / 10) * 10)];
     if let Obs::Err(c, _) = &obs { tags.push(format!("err:{}", c)); }
     for kw in ["scan ", "for ", "if ", "var ", "set ", "attribute ", "global ", "inherit "] { if inp.dsl.contains(kw) { tags.push(format!("has:{}", kw.trim())); } }
@@ -53,7 +55,7 @@ pub fn gen(rng: &mut Rng, n: usize) -> Vec<Case> { gen_mode(rng, n, false) }
 pub fn gen_mode(rng: &mut Rng, n: usize, lazy: bool) -> Vec<Case> {
     quiet_panics();
     let mut opts = GenOpts::full();
-    opts.allow_scan = false; opts.stdlib = false;   // TEMP until Regex/Stdlib models are merged
+    opts.stdlib = false;   // TEMP until the Stdlib model is merged
     let mut out = Vec::new();
     let mut tries = 0;
     while out.len() < n && tries < n * 20 {
